@@ -30,7 +30,8 @@ graph write is preceded by a thaw / re-bind / clear — under which the copy-the
 -/
 namespace Navis.Heap
 
-abbrev Ref := Nat
+/-- references are plain addresses (a notation, so that arithmetic tactics see `Nat`) -/
+scoped notation "Ref" => Nat
 
 /-- The attributes of a neuron that are bound to mutable containers.  `nodes` stands for the primary table /
 array (`_nodes`, `_points`, `_vertices`, `_data`), `conns` for `_connectors`, `graph` for `_graph_nx`,
@@ -279,17 +280,21 @@ def listOrFixed (s : Store) (l : Ref) (o : Ref) (present : Bool) : Store × Ref 
 /-! ## abstract event traces extracted from the navis source (translator → `Gen/InplaceSpec.lean`)
 
 For every function with an `inplace` (or, for the arithmetic dunders, `copy`) parameter the translator walks the
-body in source order and emits the events that matter for the pattern.  `okTrace` is the checked premise: no
-write to the input before the copy guard, and the parameter is honoured at all. -/
+body path-sensitively and emits, for the worst path on which `inplace` is not known to be true, the events that
+matter for the pattern.  `okTrace` is the checked premise (`WritesOwn` at the level of the source text): nothing
+is written to the input before the copy guard, the input is never written through a retained alias afterwards,
+and the parameter is honoured at all. -/
 
 inductive Ev where
-  /-- `if not inplace: x = x.copy()` (any of its syntactic variants) -/
+  /-- `if not inplace: x = x.copy()` (any of its syntactic variants); `x` now names the copy -/
   | guard
-  /-- a statement that can write to the (not yet copied) input in a context where `inplace` may be false -/
+  /-- a statement that writes to what `x` currently names -/
   | write
-  /-- the input is handed to another function together with `inplace=inplace` -/
+  /-- a statement that writes to the *original* input through an alias kept across the guard -/
+  | writeIn
+  /-- the input is handed to another function of the table together with `inplace=inplace` -/
   | delegate
-  /-- the body branches on `inplace` explicitly and only writes under `inplace = true` -/
+  /-- the body branches on `inplace` explicitly -/
   | branch
   deriving DecidableEq, Repr
 
@@ -300,25 +305,25 @@ def noWriteBeforeGuard : List Ev → Bool
   | .write :: _ => false
   | _ :: t => noWriteBeforeGuard t
 
-/-- A trace is fine when nothing is written before the guard and the `inplace` parameter is honoured by a
-guard, a delegation or an explicit branch. -/
+/-- A trace is fine when nothing is written before the guard, the original is never written afterwards, and
+the `inplace` parameter is honoured by a guard, a delegation or an explicit branch. -/
 def okTrace (t : List Ev) : Bool :=
-  noWriteBeforeGuard t && (t.contains .guard || t.contains .delegate || t.contains .branch)
+  noWriteBeforeGuard t && !t.contains .writeIn &&
+    (t.contains .guard || t.contains .delegate || t.contains .branch)
 
-/-- The heap-model program of a trace: every `write` event becomes a write to the node table, the first
-`guard` is the copy statement.  `(pre, body)` such that the function is `badCall pre body`. -/
-def splitTrace : List Ev → List Ev × List Ev
-  | [] => ([], [])
-  | .guard :: t => ([], t)
-  | e :: t => let p := splitTrace t; (e :: p.1, p.2)
+/-- a write that always changes the node table's content -/
+def bump : Abs → Int := fun a => a.nodes.getD 0 + 1
 
-def evStmts (f : Abs → Int) : List Ev → List Stmt
-  | [] => []
-  | .write :: t => .wr .nodes f :: evStmts f t
-  | _ :: t => evStmts f t
+/-- One event of a trace, run in the heap model.  State = (store, object `x` currently names); `x0` is the
+input.  A delegation is a no-op here: the callee has its own row in the table. -/
+def runEv (f : Abs → Int) (x0 : Ref) (inplace : Bool) (st : Store × Ref) : Ev → Store × Ref
+  | .guard => if inplace then st else copyObj st.1 st.2
+  | .write => (step st.1 st.2 (.wr .nodes f), st.2)
+  | .writeIn => (step st.1 x0 (.wr .nodes f), st.2)
+  | .delegate => st
+  | .branch => st
 
-def traceCall (f : Abs → Int) (t : List Ev) (s : Store) (x : Ref) (inplace : Bool) : Store × Ref :=
-  let p := splitTrace t
-  badCall (evStmts f p.1) (evStmts f p.2) s x inplace
+def runTrace (f : Abs → Int) (t : List Ev) (s : Store) (x : Ref) (inplace : Bool) : Store × Ref :=
+  t.foldl (runEv f x inplace) (s, x)
 
 end Navis.Heap
